@@ -46,51 +46,51 @@ inductive Why where
 deriving DecidableEq, Repr
 
 def justification : List ((String × String × String) × Why) := [
-  (("endEvent.run", "send", "m.response"), .bufferedReply),
-  (("exclusiveGateway.run", "send", "*response"), .bufferedReply),
-  (("exclusiveGateway.run", "send", "m.response"), .bufferedReply),
-  (("harness.run", "send", "m.response"), .bufferedReply),
-  (("harness.run$1", "send", "out"), .bufferedReply),
-  (("genericTask.run$1", "send", "m.response"), .bufferedReply),
-  (("subProcess.run$1", "send", "m.response"), .bufferedReply),
-  (("taskTrace.process", "send", "t.response"), .bufferedReply),
-  (("Process.WaitUntilComplete$1", "send", "signal"), .bufferedReply),
+  (("endEvent.run", "send", "_.response"), .bufferedReply),
+  (("exclusiveGateway.run", "send", "_"), .bufferedReply),
+  (("exclusiveGateway.run", "send", "_.response"), .bufferedReply),
+  (("harness.run", "send", "_.response"), .bufferedReply),
+  (("harness.run$1", "send", "_"), .bufferedReply),
+  (("genericTask.run$1", "send", "_.response"), .bufferedReply),
+  (("subProcess.run$1", "send", "_.response"), .bufferedReply),
+  (("taskTrace.process", "send", "_.response"), .bufferedReply),
+  (("Process.WaitUntilComplete$1", "send", "_"), .bufferedReply),
   -- node loops answering a token: one reply per channel; fine once the channel made by NextAction is buffered
-  (("startEvent.run", "send", "m.response"), .bufferedReply),
-  (("throwEvent.run", "send", "m.response"), .bufferedReply),
-  (("catchEvent.run", "send", "actionChan"), .bufferedReply),
-  (("eventBasedGateway.run", "send", "m.response"), .bufferedReply),
-  (("inclusiveGateway.trySync", "send", "gw.activated.response"), .bufferedReply),
-  (("distributeFlows", "send", "action"), .bufferedReply),   -- buffered since the fix of D2 (3a1abd8)
-  (("catchEvent.NextAction", "send", "evt.mch"), .inbox),
-  (("catchEvent.ConsumeEvent", "send", "evt.mch"), .inbox),
-  (("endEvent.NextAction", "send", "evt.mch"), .inbox),
-  (("startEvent.NextAction", "send", "evt.mch"), .inbox),
-  (("startEvent.ConsumeEvent", "send", "evt.mch"), .inbox),
-  (("startEvent.Trigger", "send", "evt.mch"), .inbox),
-  (("throwEvent.NextAction", "send", "evt.mch"), .inbox),
-  (("throwEvent.ConsumeEvent", "send", "evt.mch"), .inbox),
-  (("throwEvent.Trigger", "send", "evt.mch"), .inbox),
-  (("eventBasedGateway.NextAction", "send", "gw.mch"), .inbox),
-  (("exclusiveGateway.NextAction", "send", "gw.mch"), .inbox),
-  (("exclusiveGateway.run$1", "send", "gw.mch"), .inbox),
-  (("exclusiveGateway.run$lit", "send", "gw.mch"), .inbox),
-  (("inclusiveGateway.NextAction", "send", "gw.mch"), .inbox),
-  (("inclusiveGateway.run$1", "send", "gw.mch"), .inbox),
-  (("inclusiveGateway.trySync$lit", "send", "gw.mch"), .inbox),
-  (("parallelGateway.NextAction", "send", "gw.mch"), .inbox),
-  (("harness.NextAction", "send", "node.mch"), .inbox),
-  (("genericTask.NextAction", "send", "task.mch"), .inbox),
-  (("genericTask.Cancel", "send", "task.mch"), .inbox),
-  (("subProcess.NextAction", "send", "sp.mch"), .inbox),
-  (("subProcess.Cancel", "send", "sp.mch"), .inbox),
-  (("ProcessSet.tracerProcess", "send", "ps.mch"), .inbox),
-  (("genericTask.run", "send", "m.response"), .syncRequester),     -- reply to `<-node.activity.Cancel()`
-  (("subProcess.run", "send", "m.response"), .syncRequester),
-  (("tracing.tracer.run", "send", "sch.ok"), .syncRequester),      -- SubscribeChannel waits on `<-okCh`
-  (("tracing.tracer.run", "send", "unsch.ok"), .syncRequester),    -- Unsubscribe loops on `<-okChan`
-  (("tracing.tracer.run", "send", "subscriber"), .subscriberContract),
-  (("tracing.tracer.run$1", "send", "t.terminate"), .servedUntilDone)]
+  (("startEvent.run", "send", "_.response"), .bufferedReply),
+  (("throwEvent.run", "send", "_.response"), .bufferedReply),
+  (("catchEvent.run", "send", "_"), .bufferedReply),
+  (("eventBasedGateway.run", "send", "_.response"), .bufferedReply),
+  (("inclusiveGateway.trySync", "send", "_.activated.response"), .bufferedReply),
+  (("distributeFlows", "send", "_"), .bufferedReply),   -- buffered since the fix of D2 (3a1abd8)
+  (("catchEvent.NextAction", "send", "_.mch"), .inbox),
+  (("catchEvent.ConsumeEvent", "send", "_.mch"), .inbox),
+  (("endEvent.NextAction", "send", "_.mch"), .inbox),
+  (("startEvent.NextAction", "send", "_.mch"), .inbox),
+  (("startEvent.ConsumeEvent", "send", "_.mch"), .inbox),
+  (("startEvent.Trigger", "send", "_.mch"), .inbox),
+  (("throwEvent.NextAction", "send", "_.mch"), .inbox),
+  (("throwEvent.ConsumeEvent", "send", "_.mch"), .inbox),
+  (("throwEvent.Trigger", "send", "_.mch"), .inbox),
+  (("eventBasedGateway.NextAction", "send", "_.mch"), .inbox),
+  (("exclusiveGateway.NextAction", "send", "_.mch"), .inbox),
+  (("exclusiveGateway.run$1", "send", "_.mch"), .inbox),
+  (("exclusiveGateway.run$lit", "send", "_.mch"), .inbox),
+  (("inclusiveGateway.NextAction", "send", "_.mch"), .inbox),
+  (("inclusiveGateway.run$1", "send", "_.mch"), .inbox),
+  (("inclusiveGateway.trySync$lit", "send", "_.mch"), .inbox),
+  (("parallelGateway.NextAction", "send", "_.mch"), .inbox),
+  (("harness.NextAction", "send", "_.mch"), .inbox),
+  (("genericTask.NextAction", "send", "_.mch"), .inbox),
+  (("genericTask.Cancel", "send", "_.mch"), .inbox),
+  (("subProcess.NextAction", "send", "_.mch"), .inbox),
+  (("subProcess.Cancel", "send", "_.mch"), .inbox),
+  (("ProcessSet.tracerProcess", "send", "_.mch"), .inbox),
+  (("genericTask.run", "send", "_.response"), .syncRequester),     -- reply to `<-node.activity.Cancel()`
+  (("subProcess.run", "send", "_.response"), .syncRequester),
+  (("tracing.tracer.run", "send", "_.ok"), .syncRequester),      -- SubscribeChannel waits on `<-okCh`
+  (("tracing.tracer.run", "send", "_.ok"), .syncRequester),    -- Unsubscribe loops on `<-okChan`
+  (("tracing.tracer.run", "send", "_"), .subscriberContract),
+  (("tracing.tracer.run$1", "send", "_.terminate"), .servedUntilDone)]
 
 /-- functions that subscribe to a tracer and never unsubscribe (extracted) -/
 def deadSubscribers : List String := Bpmn.Gen.C07.subscribersWithoutUnsubscribe.getD []
